@@ -202,6 +202,12 @@ Example C16_gather_consecutive_nonvacuous :
   fst (view_slice [4; 2] 1 3) = 1 * size (tl [4; 2]) /\ size (snd (view_slice [4; 2] 1 3)) = 2 * size (tl [4; 2]).
 Proof. vm_compute. repeat split; reflexivity. Qed.
 
+(* the guards of C16_views_disjoint and C16_gather_consecutive hold for every shape whose dimensions are not negative *)
+Theorem C16_compose_guards : forall d p,
+  Forall (fun x => 0 <= x) d -> 0 <= size (dims0 d p) /\ 0 <= size (tl d).
+Proof. exact c_guards_hold. Qed.
+Print Assumptions C16_compose_guards.
+
 Example C16_compose_nonvacuous :
   validpb [3; 4; 5] ([2] ++ [3]) = true /\ view_tensor [4; 5] [3] = (15, [5]) /\ view_tensor [3; 4; 5] [2] = (40, [4; 5]) /\
   slice_validb [6; 2] 1 5 = true /\ slice_validb (snd (view_slice [6; 2] 1 5)) 1 3 = true /\
